@@ -15,8 +15,9 @@ import copy
 
 
 class RecordInfo:
-    def __init__(self, name, fields, defaults, ci=None):
+    def __init__(self, name, fields, defaults, ci=None, params=None):
         self.name, self.fields, self.defaults, self.ci = name, list(fields), dict(defaults), ci
+        self.params = list(params) if params is not None else list(fields)     # constructor parameter of each field, same order
 
     def bind(self, call):
         """{field: argument expression} of a construction, or None when it cannot be matched"""
@@ -24,17 +25,19 @@ class RecordInfo:
             return None
         if len(call.args) > len(self.fields):
             return None
-        out = dict(zip(self.fields, call.args))
+        by_param = dict(zip(self.params, call.args))
         for k in call.keywords:
-            if k.arg not in self.fields or k.arg in out:
+            if k.arg not in self.params or k.arg in by_param:
                 return None
-            out[k.arg] = k.value
-        for f in self.fields:
-            if f not in out:
-                if f in self.defaults:
-                    out[f] = self.defaults[f]
-                else:
-                    return None
+            by_param[k.arg] = k.value
+        out = {}
+        for f, p_ in zip(self.fields, self.params):
+            if p_ in by_param:
+                out[f] = by_param[p_]
+            elif f in self.defaults:
+                out[f] = self.defaults[f]
+            else:
+                return None
         return out
 
 
@@ -46,19 +49,21 @@ class Records:
         known_classes = set(inv.get("class_names", {}))
         for m in repo.mods.values():
             known_names = set(inv.get("module_names", {}).get(m.name, []))
-            for cname, defs in getattr(m, "class_defs", {}).items():
-                for node in defs:
-                    if f"{m.name}.{cname}" in known_classes:
-                        continue
-                    info = self._from_classdef(m, node)
-                    if info is not None:
-                        self._add(cname, node, info)
             for name, vals in m.assigns.items():
                 if name in known_names or len(vals) != 1:
                     continue
                 fields = self._namedtuple_fields(m, vals[0])
                 if fields is not None:
                     self._add(name, vals[0], RecordInfo(name, fields, {}))
+        for _round in range(2):       # (a record class may derive from a namedtuple bound to a module-level name)
+            for m in repo.mods.values():
+                for cname, defs in getattr(m, "class_defs", {}).items():
+                    for node in defs:
+                        if f"{m.name}.{cname}" in known_classes or id(node) in self.by_node:
+                            continue
+                        info = self._from_classdef(m, node)
+                        if info is not None:
+                            self._add(cname, node, info)
         # import aliases
         for m in repo.mods.values():
             for alias, (tm, attr) in m.imports.items():
@@ -102,6 +107,42 @@ class Records:
             fields = self._namedtuple_fields(m, b)
             if fields is not None:
                 return RecordInfo(node.name, fields, {}, ci)
+            if isinstance(b, ast.Name) and self.names.get(b.id) is not None and not any(
+                    isinstance(s_, ast.FunctionDef) and s_.name in ("__new__", "__init__") for s_ in node.body):
+                base = self.names[b.id]
+                return RecordInfo(node.name, base.fields, base.defaults, ci)
+        # a plain value-holder class: no bases, `__init__` only stores its parameters into attributes, no other method (nor any
+        # other code of the repository) stores into attributes of an instance
+        if not node.bases and not node.keywords:
+            ini = next((s_ for s_ in node.body if isinstance(s_, ast.FunctionDef) and s_.name == "__init__"), None)
+            if ini is None or ini.args.vararg or ini.args.kwarg or ini.args.kwonlyargs or not ini.args.args:
+                return None
+            selfn = ini.args.args[0].arg
+            params = [a.arg for a in ini.args.args[1:]]
+            body = [s_ for s_ in ini.body if not (isinstance(s_, ast.Expr) and isinstance(s_.value, ast.Constant))]
+            fields, used = [], []
+            for s_ in body:
+                if isinstance(s_, ast.Assign) and len(s_.targets) == 1 and isinstance(s_.targets[0], ast.Attribute) \
+                        and isinstance(s_.targets[0].value, ast.Name) and s_.targets[0].value.id == selfn \
+                        and isinstance(s_.value, ast.Name) and s_.value.id in params and s_.value.id not in used:
+                    fields.append(s_.targets[0].attr)
+                    used.append(s_.value.id)
+                else:
+                    return None
+            if sorted(used) != sorted(params) or not fields:
+                return None
+            for s_ in node.body:
+                if isinstance(s_, ast.FunctionDef) and s_ is not ini:
+                    sn = s_.args.args[0].arg if s_.args.args else None
+                    for x in ast.walk(s_):
+                        if isinstance(x, ast.Attribute) and isinstance(x.ctx, (ast.Store, ast.Del)) and isinstance(x.value, ast.Name) and x.value.id == sn:
+                            return None
+            defaults = {}
+            dl = ini.args.defaults
+            for p_, d in zip(params[len(params) - len(dl):], dl):
+                defaults[fields[used.index(p_)]] = d
+            ordered_fields = [fields[used.index(p_)] for p_ in params]
+            return RecordInfo(node.name, ordered_fields, defaults, ci, params=params)
         return None
 
     # ---- queries
@@ -133,8 +174,9 @@ class Records:
         if info.ci is not None:
             prop = info.ci.props.get(attr, {}).get("get") if hasattr(info.ci, "props") else None
             if prop is not None:
-                body = [s for s in prop.body if not (isinstance(s, ast.Expr) and isinstance(s.value, ast.Constant))]
-                if len(body) == 1 and isinstance(body[0], ast.Return) and body[0].value is not None:
+                from .normalize import single_expr_of
+                expr_ = single_expr_of(copy.deepcopy(prop.body))
+                if expr_ is not None:
                     selfname = prop.args.args[0].arg if prop.args.args else "self"
 
                     class S(ast.NodeTransformer):
@@ -148,7 +190,7 @@ class Records:
                             if n.id == selfname and isinstance(n.ctx, ast.Load):
                                 return ast.copy_location(copy.deepcopy(e), n)
                             return n
-                    return S().visit(copy.deepcopy(body[0].value))
+                    return S().visit(expr_)
         return None
 
 
